@@ -2,7 +2,7 @@
 # seeded_verify.sh <ID> <worktree> <package dir> <demo test file name> <demo test regexp>
 # Confirms in the scratch worktree: with the change the demo fails and the package's own tests pass; without it the demo passes.
 set -u
-ID=$1; WT=$2; PKG=$3; DEMO=$4; RE=$5
+ID=$1; WT=$2; PKG=$3; DEMO=$4; RE="${5%% *}"; EXTRA=""; case "$5" in *" "*) EXTRA="${5#* }";; esac
 export GOFLAGS=-mod=mod GOPROXY=off GOSUMDB=off GOTOOLCHAIN=local
 OUT=/verif/seeded/$ID; mkdir -p $OUT
 cd $WT || exit 2
@@ -10,12 +10,12 @@ git diff > /tmp/seeded-verify-$ID-saved.patch 2>/dev/null   # never git stash: t
 git checkout -q -- . 2>/dev/null; rm -f $PKG/$DEMO
 cp $OUT/$DEMO $PKG/$DEMO
 echo "== without change: demo" > $OUT/verify.log
-go test -count=1 -run "$RE" ./$PKG/ >> $OUT/verify.log 2>&1; base_demo=$?
+go test -count=1 -run "$RE" ./$PKG/ $EXTRA >> $OUT/verify.log 2>&1; base_demo=$?
 git apply $OUT/patch.diff || { echo "patch does not apply" >> $OUT/verify.log; exit 2; }
 echo "== with change: build" >> $OUT/verify.log
 go build ./$PKG/ >> $OUT/verify.log 2>&1; build=$?
 echo "== with change: demo" >> $OUT/verify.log
-go test -count=1 -run "$RE" ./$PKG/ >> $OUT/verify.log 2>&1; mut_demo=$?
+go test -count=1 -run "$RE" ./$PKG/ $EXTRA >> $OUT/verify.log 2>&1; mut_demo=$?
 rm -f $PKG/$DEMO
 echo "== with change: package tests (demo removed)" >> $OUT/verify.log
 go test -count=1 ./$PKG/ >> $OUT/verify.log 2>&1; mut_pkg=$?
